@@ -10,7 +10,9 @@
 EXTENDS Naturals, FiniteSets, TLC
 Schemes   == {"gemini", "GEMINI", "http", "titan", "none"}
 UserInfos == {"none", "user", "userpw", "pwonly", "empty", "colononly"}      \* colononly: ":@" - user-info that consists of the separator alone
-Hosts     == {"reg", "REG", "ipv4", "v6", "v6zone", "missing", "v6bare", "v6junk"}     \* v6junk: characters around the brackets ("junk[::1]junk")
+Hosts     == {"reg", "REG", "ipv4", "v6", "v6zone", "missing", "v6bare", "v6junk", "vfuture"}
+             \* v6junk: characters around the brackets ("junk[::1]junk"); vfuture: brackets around something that is not an
+             \* IPv6 address ("[v1.ab]", RFC 3986 IPvFuture): nothing can connect to it, and without its brackets it is a DNS name
 Ports     == {"absent", "emptycolon", "1965", "0", "65535", "65536", "abc", "7070"}
 PathKs    == {"empty", "root", "plain", "pct", "params", "dslash", "dots", "ctl"}      \* ctl: a raw TAB, LF or CR inside (what the URL parser would delete silently)
 Queries   == {"absent", "emptyq", "plain", "qmark"}
@@ -23,7 +25,7 @@ vars == <<u, uploads, out>>
 PortNumber(p) == CASE p = "absent" -> 1965 [] p = "emptycolon" -> 1965 [] p = "1965" -> 1965 [] p = "0" -> 0
                    [] p = "65535" -> 65535 [] p = "7070" -> 7070 [] OTHER -> 99999
 PortOk(p) == p \notin {"65536", "abc"}
-HostOk(h) == h \notin {"missing", "v6bare", "v6junk"}
+HostOk(h) == h \notin {"missing", "v6bare", "v6junk", "vfuture"}
 \* a gemini:// URL that satisfies the protocol grammar
 Wellformed(x) == /\ x.user \in {"none", "empty"} /\ HostOk(x.host) /\ PortOk(x.port) /\ x.path # "ctl"
                  /\ x.frag \in {"absent", "emptyfrag"} /\ x.len # "over"
